@@ -24,6 +24,7 @@ import MilaModel.Model.TextArchive
 import MilaModel.Lemmas.TextUtf
 import MilaModel.Lemmas.TextLayout
 import MilaModel.Lemmas.ComposeBin
+import MilaModel.Lemmas.SjisSub
 
 namespace Mila.Props.C06
 open Mila Mila.TextArchive Mila.BinArchive
@@ -410,6 +411,15 @@ theorem text_roundtrip (c : Codec) (D : Str → Prop) (hc : c.Faithful D) (t : T
       TextArchive.fromBytes c bytes t.format t.endian = .ok (expected t) :=
   text_roundtrip_given_bin_roundtrip c D hc t hd
     (fun a ha => text_bin_roundtrip c D hc t hd hkeys a ha (small a ha))
+
+/-- The round trip with no assumption about the text encoding left: the executable sub-codec
+`sjisSub` is faithful on its whole alphabet (`Mila.sjisSub_faithful`). -/
+theorem text_roundtrip_sjisSub (t : TextArchive) (hd : InDomain Sjis.SubDomain t)
+    (hkeys : ∀ k ∈ keysOf t.entries, Sjis.SubDomain k)
+    (small : ∀ a, buildArchive sjisSub t = .ok a → Ser.imageSize sjisSub a < 2 ^ 32) :
+    ∃ bytes, TextArchive.serialize sjisSub t = .ok bytes ∧
+      TextArchive.fromBytes sjisSub bytes t.format t.endian = .ok (expected t) :=
+  text_roundtrip sjisSub Sjis.SubDomain Mila.sjisSub_faithful t hd hkeys small
 
 /-- Non-vacuity of `text_roundtrip`: all its hypotheses hold of a concrete UTF-16 big-endian archive
 with a title and one entry, over the identity codec on NUL-free strings (the size of the image is
